@@ -9,6 +9,7 @@ import (
 	"runtime"
 	"strconv"
 	"strings"
+	"sync"
 	"sync/atomic"
 	"time"
 )
@@ -20,6 +21,14 @@ type G struct {
 	Frames []string // function names, innermost first
 	Raw    string
 }
+
+// samplers holds the ids of goroutines currently inside QuiesceOr. Two
+// goroutines may sample at once (a scripted 'wait for quiescence' action and
+// the scenario's own wait); each treats the other as waiting.
+var (
+	samplersMu sync.Mutex
+	samplers   = map[int64]int{}
+)
 
 // Activity is bumped by instrumented components (transports, directors, op
 // registries) whenever something happens. Quiescence requires it to be stable.
@@ -135,6 +144,16 @@ func Quiesce(maxWait time.Duration) (bool, []G) {
 func QuiesceOr(ch <-chan struct{}, maxWait time.Duration) (string, []G) {
 	start := time.Now()
 	self := Self()
+	samplersMu.Lock()
+	samplers[self]++
+	samplersMu.Unlock()
+	defer func() {
+		samplersMu.Lock()
+		if samplers[self]--; samplers[self] <= 0 {
+			delete(samplers, self)
+		}
+		samplersMu.Unlock()
+	}()
 	consecutive := 0
 	var lastAct int64 = -1
 	pause := 20 * time.Microsecond
@@ -152,8 +171,20 @@ func QuiesceOr(ch <-chan struct{}, maxWait time.Duration) (string, []G) {
 		act := atomic.LoadInt64(&Activity)
 		snap := Snapshot()
 		quiet := true
+		samplersMu.Lock()
+		others := make(map[int64]bool, len(samplers))
+		for id := range samplers {
+			others[id] = true
+		}
+		samplersMu.Unlock()
+		delete(others, self)
+		if ch != nil && len(others) > 0 {
+			// another goroutine is waiting for quiescence as part of the workload
+			// and will continue afterwards: the workload has not come to rest
+			quiet = false
+		}
 		for _, g := range snap {
-			if g.ID == self {
+			if g.ID == self || others[g.ID] {
 				continue
 			}
 			if !Waiting(g.State) {
